@@ -87,6 +87,14 @@ def register(reg):
                  ('property', 'result is None')],
         raises={'FailedParse': [f'not out_ok(self.exp, {FRESH})', SAME]}, propagates=[GROW])
 
+    # `->e`: e parsed on the first frame of the skipping trajectory that is at the end of the text or where &e holds
+    TGT = f'spec_skip_frame(self.exp, {OTOP})'
+    contract(
+        reg, f'{Sx}:SkipTo._parse', ['C01', 'C02'], {'self': 'opaque:Model', 'ctx': 'Ctx'}, ret='Val', requires=REQ,
+        ensures=[('property', f'out_ok(self.exp, {TGT})'), ('property', f'{STK} == {OSTK}[:-1] + [out_frame(self.exp, {TGT})]'),
+                 ('property', f'result == out_ret(self.exp, {TGT})')],
+        raises={'FailedParse': [f'not out_ok(self.exp, {TGT})', f'{STK} == {OSTK}[:-1] + [out_fail_frame(self.exp, {TGT})]']}, propagates=[GROW])
+
     # ------------------------------------------------------------------ naming nodes (docs/ast.rst)
     Nm = 'tatsu/peg/named.py'
     OUTF = f'out_frame(self.exp, {OTOP})'
